@@ -79,10 +79,24 @@ Theorem C11_schemas_functional : forall op vs1 vs2, In (op, vs1) schemas -> In (
 Proof. exact schemas_functional. Qed.
 Print Assumptions C11_schemas_functional.
 
+(* (P, finite) the finite checks themselves, by computation over the table translated from /repo on this run and
+   the schemas dumped from the installed onnx on this run *)
+Theorem C11_reduce_table_ok : reduce_table_ok = true.
+Proof. vm_compute. reflexivity. Qed.
+Print Assumptions C11_reduce_table_ok.
+
+Theorem C11_swish_sound_table_ok : swish_sound_table_ok = true.
+Proof. vm_compute. reflexivity. Qed.
+Print Assumptions C11_swish_sound_table_ok.
+
+Theorem C11_swish_table_ok : swish_table_ok = true.
+Proof. vm_compute. reflexivity. Qed.
+Print Assumptions C11_swish_table_ok.
+
 (* (P, finite) builder_reduce_with_axes: for EVERY opset in [13, newest] and every reduction of
    _REDUCTION_AXES_INPUT_SINCE, the translated branch passes the axes as an input exactly when the schema at
    that opset has the axes input (and as an attribute exactly when the schema has the attribute), and the node
-   it emits (arity + attribute names) is admitted by that schema. *)
+   it emits (arity + attribute names) is accepted by that schema. *)
 Theorem C11_reduce_form_correct : forall opset op since,
   13 <= opset <= onnx_newest_opset -> In (op, since) REDUCTION_AXES_INPUT_SINCE ->
   exists sv, schema_at op opset = Some sv /\ sv_deprecated sv = false /\
@@ -91,21 +105,29 @@ Theorem C11_reduce_form_correct : forall opset op since,
     (let form := (if reduce_uses_axes_attribute opset since then reduce_form_attribute else reduce_form_input) in
      sv_min_in sv <= fst form <= sv_max_in sv /\ forall a, In a (snd form) -> In a (sv_attrs sv)) /\
     (sv_min_in sv <= fst reduce_form_no_axes <= sv_max_in sv /\ forall a, In a (snd reduce_form_no_axes) -> In a (sv_attrs sv)).
-Proof. exact reduce_form_correct. Qed.
+Proof. exact (reduce_form_correct C11_reduce_table_ok). Qed.
 Print Assumptions C11_reduce_form_correct.
 
 (* (P, finite) the Swish rewrite: whenever the translated guard lets it run, Swish exists at the declared opset *)
 Theorem C11_swish_guard_sound : forall v, 1 <= v <= onnx_newest_opset ->
   swish_rewrite_enabled v = true ->
   exists sv, schema_at "Swish" v = Some sv /\ sv_deprecated sv = false /\ sv_min_in sv <= 1 <= sv_max_in sv.
-Proof. exact swish_guard_sound. Qed.
+Proof. exact (swish_guard_sound C11_swish_sound_table_ok). Qed.
 Print Assumptions C11_swish_guard_sound.
 
 (* ... and the guard is exact: Swish exists at opset v iff threshold-of-the-guard <= v *)
 Theorem C11_swish_guard_correct : forall v, 1 <= v <= onnx_newest_opset ->
   (schema_at "Swish" v <> None <-> swish_guard_constant <= v).
-Proof. exact swish_guard_correct. Qed.
+Proof. exact (swish_guard_correct C11_swish_table_ok). Qed.
 Print Assumptions C11_swish_guard_correct.
+
+(* non-vacuity: both branches of the reduction helper occur inside the quantified range, both sides of the guard *)
+Example C11_ex_reduce_both_branches :
+  reduce_form 18 17 = reduce_form_attribute /\ reduce_form 18 18 = reduce_form_input /\
+  In ("ReduceMax", 18) REDUCTION_AXES_INPUT_SINCE /\ In ("ReduceSum", 13) REDUCTION_AXES_INPUT_SINCE.
+Proof. vm_compute. repeat split; auto 20. Qed.
+Example C11_ex_swish_both_sides : swish_rewrite_enabled 23 = false /\ swish_rewrite_enabled 24 = true.
+Proof. split; reflexivity. Qed.
 
 (* the property is FALSE of the unchanged exporter at the default opset: the two operators the plugins
    lax/jnp cumprod and lax.bitcast_convert_type emit do not exist before opset 26 (see harness: real exports) *)
